@@ -131,3 +131,9 @@ package cmd
 //@ ensures[C20] every_row_shows_the_tls_flag_of_its_own_service: all(TableRow, $1 == "Service" || $2 == ite(old(haskey(response.Targets, $1) && response.Targets[$1].TLS), "yes", "no"))
 //@ ensures[C20] six_columns: all(TableRow, $3 == 6)
 //@ loop 1 invariant rows_so_far: all(TableRow, $1 == "Service" || $2 == ite(old(haskey(response.Targets, $1) && response.Targets[$1].TLS), "yes", "no")) && all(TableRow, $3 == 6)
+
+//@ func cmd.Execute
+//@ attr blocks
+//@ assigns *
+//@ may_emit *
+//@ ensures[C20,C06] a_failed_command_exits_with_status_one: count(CobraExecute(_, _)) == 1 && all(CobraExecute, $1 || emitted(Exit(1))) && all(Exit, $0 == 1 && emitted(CobraExecute(_, false)))
